@@ -15,3 +15,7 @@ mod c02_utf8;
 mod c04_decoder;
 #[cfg(kani)]
 mod c17_scalars;
+#[cfg(kani)]
+mod c07_tokens;
+#[cfg(kani)]
+mod c08_args;
